@@ -168,12 +168,14 @@ impl DataStorage {
         Ok(())
     }
 
-    /// Returns true if the revision is available and valid (digest matches)
+    /// Returns true if the revision is available: its object is stored in an indexed (verified)
+    /// pack, or the revision carries no stored object. The stage and the object cache are not
+    /// consulted: what is only there is lost when the replica is opened again
     pub fn is_readable_and_valid_revision(&self, rev: &Revision) -> bool {
         if self.committed_objects.contains_key(rev.digest()) {
             true
         } else {
-            matches!(self.read_object(rev), Ok(_obj))
+            rev.is_resolved() || rev.is_deleted() || rev.is_empty() || rev.is_charcode()
         }
     }
 
